@@ -3,7 +3,8 @@ accepted case (a list of trace-line objects) and names the TLA+ predicate that m
 
 
 def _l1(line):
-    return line["st"].get("l1")
+    """Observed state of the ledger the line's request addressed (l1 in single-ledger histories)."""
+    return line["st"].get(line.get("op", {}).get("l") or "l1") or line["st"].get("l1")
 
 
 def _committed_lines(cl, kind=None):
@@ -227,7 +228,18 @@ def m_c12(cl):
     return False
 
 
+def m_c34(cl):
+    """A block that does not start where the previous one ended."""
+    for ln in reversed(cl):
+        for g, bs in (ln.get("blk") or {}).items():
+            if bs:
+                bs[-1]["from"] += 1
+                return True
+    return False
+
+
 CONTROLS = {
+    "C34": ("Inv_C34_BlockChain", m_c34),
     "C11": ("Step_C11_ImportFaithful", m_c11),
     "C12": ("Step_C12_ImportOutcome", m_c12),
     "C19": ("Step_C19_Frame", m_c19),
